@@ -59,6 +59,9 @@ type World struct {
 	gap          uint32
 	// mempool model (C09): pending relevant transactions known to the wallet
 	pending map[wire.Hash]*wire.MsgTx
+	everSeen      map[wire.Hash]*wire.MsgTx
+	c09mode       bool
+	reservedExtra map[wire.OutPoint]bool
 	// options
 	allowNullData bool
 	allowStaking  bool
@@ -92,7 +95,7 @@ func newWorld(t *rapid.T, nWallets int, gap uint32, wrap func(mwdb.DB) mwdb.DB) 
 		t.Fatalf("HARNESS: env: %v", err)
 	}
 	w := &World{node: node, env: env, flags: map[string]bool{}, gap: gap, tipAnnounced: true,
-		pending: map[wire.Hash]*wire.MsgTx{}, allowNullData: true, allowStaking: true, allowBinding: true}
+		pending: map[wire.Hash]*wire.MsgTx{}, everSeen: map[wire.Hash]*wire.MsgTx{}, reservedExtra: map[wire.OutPoint]bool{}, allowNullData: true, allowStaking: true, allowBinding: true}
 	if err := env.StartStepped(); err != nil {
 		w.close()
 		t.Fatalf("HARNESS: start: %v", err)
@@ -318,7 +321,7 @@ func spendableAt(c *Coin, next uint64) bool {
 func (w *World) genTx(t *rapid.T, view *utxoView, next uint64, prefer func(*Coin) bool) *wire.MsgTx {
 	var cands []*Coin
 	for _, c := range view.live() {
-		if spendableAt(c, next) && c.Value > 0 {
+		if spendableAt(c, next) && c.Value > 0 && w.coinAllowed(c) {
 			cands = append(cands, c)
 		}
 	}
@@ -390,6 +393,26 @@ func (w *World) genTx(t *rapid.T, view *utxoView, next uint64, prefer func(*Coin
 		tx.AddTxOut(wire.NewTxOut(total-fee, sim.StdScript(w.strangers[0])))
 	}
 	return tx
+}
+
+// coinAllowed: with pending transactions in play (C09) a block must not double-spend a pending
+// transaction through a coin no wallet owns: the wallet is only told about relevant transactions,
+// so such a conflict is invisible to it by construction.
+func (w *World) coinAllowed(c *Coin) bool {
+	if !w.c09mode || w.ownedByAny(c) {
+		return true
+	}
+	if w.reservedExtra[c.Op] {
+		return false
+	}
+	for _, tx := range w.pending {
+		for _, in := range tx.TxIn {
+			if in.PreviousOutPoint == c.Op {
+				return false
+			}
+		}
+	}
+	return true
 }
 
 // coinbaseOuts draws the outputs of a coinbase (plain payments only).
@@ -528,7 +551,18 @@ func (w *World) chainView(t *rapid.T) *utxoView {
 // actMine extends the best chain by one block and announces it.
 func (w *World) actMine(t *rapid.T, announce bool) {
 	view := w.chainView(t)
-	blk := w.buildBlock(t, w.node.Tip(), view, nil, 4)
+	var carry []*wire.MsgTx
+	if w.c09mode {
+		// confirm a generated subset of the pending transactions (parents first: two passes)
+		for pass := 0; pass < 2; pass++ {
+			for _, h := range w.pendingOrder() {
+				if rapid.IntRange(0, 2).Draw(t, "confirmPending") == 0 {
+					carry = append(carry, w.pending[h])
+				}
+			}
+		}
+	}
+	blk := w.buildBlock(t, w.node.Tip(), view, carry, 4)
 	if err := w.node.Attach(blk); err != nil {
 		t.Fatalf("HARNESS: attach: %v\n  %s\n%s", err, w.journalTail(30), dumpBlock(blk))
 	}
@@ -586,6 +620,14 @@ func (w *World) actReorg(t *rapid.T) {
 		}
 	}
 	view := w.chainView(t)
+	if w.c09mode {
+		for _, tx := range rolled {
+			for _, in := range tx.TxIn {
+				w.reservedExtra[in.PreviousOutPoint] = true
+			}
+		}
+		defer func() { w.reservedExtra = map[wire.OutPoint]bool{} }()
+	}
 	// fate of each rolled-back transaction
 	var remine []*wire.MsgTx
 	var conflicts []*wire.MsgTx
@@ -599,6 +641,18 @@ func (w *World) actReorg(t *rapid.T) {
 		case "doublespend":
 			// a different transaction spending the same first input
 			in0 := tx.TxIn[0]
+			if w.c09mode {
+				found := false
+				for _, in := range tx.TxIn {
+					if cc := view.coins[in.PreviousOutPoint]; cc != nil && w.ownedByAny(cc) {
+						in0, found = in, true
+						break
+					}
+				}
+				if !found {
+					continue
+				}
+			}
 			c := view.coins[in0.PreviousOutPoint]
 			if c == nil || c.Value == 0 {
 				continue
